@@ -160,12 +160,17 @@ def initAlarm (a : Alarm) (sod : Int) (mask : List Bool) (wd : Bool) : Alarm × 
 def setTimezone (a : Alarm) (minutes : Int) : Alarm :=
   { a with off := minutes * 60, tzSet := true }
 
+/-- WorkdayAlarm::onEnable: `wp_calendar_->subscribe(this)` -/
+def subscribe (a : Alarm) : Alarm := if a.cls = .workday then { a with subs := a.subs + 1 } else a
+
+/-- ghost bookkeeping of successful enable() calls -/
+def bump (a : Alarm) : Alarm := { a with nEnabled := a.nEnabled + 1 }
+
 /-- Alarm::enable (onEnable of the workday alarm subscribes to the calendar) -/
 def enable (a : Alarm) (e : Env) : Alarm × Bool :=
   if a.st = .inited then
-    let a1 := if a.cls = .workday then { a with subs := a.subs + 1 } else a
-    let (a2, ok) := activeTimer a1 e
-    (if ok then { a2 with nEnabled := a2.nEnabled + 1 } else a2, ok)
+    let r := activeTimer (subscribe a) e
+    if r.2 then (bump r.1, true) else (r.1, false)
   else (a, false)
 
 /-- Alarm::disable (with patches/C20-02: the stale target is forgotten) -/
